@@ -33,6 +33,9 @@ PY = sys.executable
 HERE = os.path.dirname(os.path.abspath(__file__))
 
 
+THREAD_REPLICA = False   # this monitor uses a process-wide sys.monitoring probe / has its own thread trials
+
+
 def shards(tier):
     nh = 10 if tier == 'quick' else 32
     nt = 6 if tier == 'quick' else 32
@@ -93,10 +96,32 @@ def prefixed_vat_numbers(rng, k):
     return out
 
 
+SAME_LENGTH_ALPHABETS = {
+    'luhn': ['0123456789', '1234567890', '0123456789abcdef', '0123456789ABCDEF', 'fedcba9876543210'],
+    'iso7064.mod_37_2': ['0123456789ABCDEFGHIJKLMNOPQRSTUVWXYZ*', 'ABCDEFGHIJKLMNOPQRSTUVWXYZ0123456789*', '0123456789X', '-0123456789'],
+    'iso7064.mod_37_36': ['0123456789ABCDEFGHIJKLMNOPQRSTUVWXYZ', 'ABCDEFGHIJKLMNOPQRSTUVWXYZ0123456789', '0123456789', '9876543210'],
+}
+
+
+def alphabet_specs(rng, k):
+    """Calls of the configurable algorithms with different alphabets of equal length (caches keyed too coarsely)."""
+    specs = []
+    for modname, alphas in SAME_LENGTH_ALPHABETS.items():
+        for alpha in alphas:
+            payload_alpha = alpha.rstrip('*X') if modname == 'iso7064.mod_37_2' and alpha[-1] in '*X' else alpha
+            if modname == 'iso7064.mod_37_2' and alpha[0] == '-':
+                payload_alpha = alpha[1:]
+            for _ in range(k):
+                w = ''.join(rng.choice(payload_alpha) for _ in range(rng.randrange(3, 12)))
+                specs.append({'module': modname, 'func': 'calc_check_digit', 'args': [w], 'kwargs': {'alphabet': alpha}})
+                specs.append({'module': modname, 'func': 'is_valid', 'args': [w + alpha[rng.randrange(len(alpha))]], 'kwargs': {'alphabet': alpha}})
+    return specs
+
+
 def universe(rng, modules, per_module):
     """List of call specs over the given modules."""
     mods = C.number_modules()
-    specs = []
+    specs = alphabet_specs(rng, 2)
     for name in modules:
         mod = mods[name]
         fns = calls.public_functions(mod)
@@ -231,7 +256,7 @@ def hist_work(shard, tier, viols, counters, samples, keys):
     # pristine oracle
     uniq = {}
     for s in hist:
-        k = json.dumps([s['module'], s['func'], s['args']], sort_keys=True)
+        k = json.dumps([s['module'], s['func'], s['args'], s.get('kwargs', {})], sort_keys=True)
         uniq.setdefault(k, s)
     ulist = [dict(s, id=k) for k, s in uniq.items()]
     ref = oracle(ulist, '0')
@@ -248,7 +273,7 @@ def hist_work(shard, tier, viols, counters, samples, keys):
                     s['module'], s['func'], s['args'], ref.get(s['id']), ref1.get(s['id']), ref2.get(s['id'])),
                 {'kind': 'hashseed', 'call': {k: s[k] for k in ('module', 'func', 'args')}})
     for i, s in enumerate(hist):
-        k = json.dumps([s['module'], s['func'], s['args']], sort_keys=True)
+        k = json.dumps([s['module'], s['func'], s['args'], s.get('kwargs', {})], sort_keys=True)
         want = ref.get(k)
         if want is None or (want and want[0] == 'harness-error'):
             counters['oracle_errors'] += 1
@@ -306,6 +331,23 @@ def thread_specs(rng, tier):
     add_calls('de.stnr', ['validate'])
     for a in iban_generic_only(rng, 8):
         specs.append({'module': 'iban', 'func': 'validate', 'args': [a]})
+    add_calls('de.handelsregisternummer', ['validate'], 4)
+    add_calls('de.stnr', ['to_country_number', 'to_regional_number', 'format'], 6)
+    add_calls('nz.bankaccount', ['validate'], 3)
+    add_calls('mac', ['get_iab'], 2)
+    # MAC addresses that share a 24-bit prefix but lie in different sub-blocks of the registry
+    for a in ('00:1b:c5:00:01:23', '00-1B-C5-00-11-23', '70:B3:D5:00:10:00', '70:B3:D5:00:20:00', '8C:1F:64:00:10:00', '8C:1F:64:00:30:00'):
+        for f in ('get_manufacturer', 'get_oui'):
+            specs.append({'module': 'mac', 'func': f, 'args': [a]})
+    # numbers typed with look-alike characters (no-break space, full-width digits, dashes): first use of the clean-up table
+    for name in ('isbn', 'iban', 'nl.bsn', 'ean', 'eu.vat'):
+        for v in C.corpus(name, limit=2, rng=rng):
+            specs.append({'module': name, 'func': 'validate', 'args': [v.replace(' ', '\u00a0').replace('-', '\u2013')]})
+            specs.append({'module': name, 'func': 'validate', 'args': [''.join(chr(0xFF10 + int(c)) if c.isdigit() else c for c in v)]})
+            specs.append({'module': name, 'func': 'validate', 'args': ['\u00a0'.join(v)]})
+    # non-ASCII letters where a registry lookup is the only gate
+    for a in ('\u0391', '\u0410', 'A', 'B', '\u0392', '62.01', '\u0661'):
+        specs.append({'module': 'eu.nace', 'func': 'validate', 'args': [a]})
     for cc in ('nl', 'gr', 'el', 'be', 'in', 'is', 'es', 'xx'):
         for alias in ('vat', 'iban', 'personalid'):
             specs.append({'module': 'util', 'func': 'get_cc_module_name', 'args': [cc, alias]})
@@ -365,7 +407,7 @@ def thread_work(shard, tier, viols, counters, samples, keys, sets):
                 p.insert(0, first)
         # every third trial is focused on one family of shared state: all threads hammer it in random order
         if t % 3 == 1:
-            fam = rng.choice(['luhn', 'modules', 'iban', 'vat', 'registries'])
+            fam = rng.choice(['luhn', 'modules', 'iban', 'vat', 'registries', 'lookalike', 'tables', 'nace'])
             if fam == 'luhn':
                 group = [s for s in specs if s['module'] in ('luhn', 'iso7064.mod_37_2')]
             elif fam == 'modules':
@@ -374,6 +416,12 @@ def thread_work(shard, tier, viols, counters, samples, keys, sets):
                 group = [s for s in specs if s['module'].endswith('iban')]
             elif fam == 'vat':
                 group = [s for s in specs if s['module'] in ('eu.vat', 'vatin')]
+            elif fam == 'lookalike':
+                group = [s for s in specs if s['args'] and isinstance(s['args'][0], str) and not s['args'][0].isascii()]
+            elif fam == 'tables':
+                group = [s for s in specs if s['module'] in ('de.handelsregisternummer', 'de.stnr', 'nz.bankaccount', 'mac')]
+            elif fam == 'nace':
+                group = [s for s in specs if s['module'] == 'eu.nace']
             else:
                 group = [s for s in specs if s['func'] in ('info', 'split', 'format', 'get_manufacturer', 'get_birth_place', 'get_campus', 'get_label')]
             plans = []
